@@ -37,7 +37,9 @@ CONSTANTS Plans,        \* set of fault plans (see PoolRunMC)
           FixWaitDone,  \* TRUE: runAsync failure calls onWaitDone (repaired); FALSE: as shipped
           FixSuppress,  \* TRUE: onErrAwaited gives up on the POOL ctx (repaired); FALSE: on the run ctx
           FixClose,     \* FALSE: instance does not close its gun (negative control)
-          FixPanic      \* FALSE: a recovered shot panic is returned as nil (negative control)
+          FixPanic,     \* FALSE: a recovered shot panic is returned as nil (negative control)
+          ErrKinds,     \* which VALUE a failing component returns (plan field ek), see Cls below
+          FixIsCtx      \* FALSE: IsCtxError accepts any context-kind cause once ctx is done (negative control)
 
 VARIABLES
   plan,            \* the fault plan of this behaviour (never changes)
@@ -99,8 +101,34 @@ PoolDone(p)   == EngineCtxDone \/ poolPc[p] \in {"report", "done"}   \* deferred
 RunDone(p)    == runCancelled[p] \/ PoolDone(p)
 StartDone(p)  == startCancelled[p] \/ RunDone(p)
 
-\* errutil.IsCtxError(ctx, err): nil, or ctx.Err() of a cancelled ctx
-IsCtx(done, e) == e = "nil" \/ (e = "ctx" /\ done)
+(* ---- error values ------------------------------------------------------ *)
+\* A component result is abstracted to the VALUE of its cause (pkg/errors.Cause), because that is all
+\* errutil.IsCtxError looks at:
+\*   "nil"       no error
+\*   "ctx"       the sentinel context.Canceled.  It is ONE value for all contexts: the run context's own
+\*               error returned late ("runctx") and the Canceled of a component's private context
+\*               ("canceled") cannot be told apart by the engine
+\*   "deadline"  the sentinel context.DeadlineExceeded of a component's OWN deadline.  The engine's contexts
+\*               are only ever cancelled (the caller's ctx has no deadline here), so this is never the
+\*               engine's own cancellation and must be reported, however late it arrives
+\*   anything else ("prov", "agg", "newgun", "bind", "sched", "warmup", "panic", "ooa")  ordinary errors,
+\*               plain or wrapped (a fmt.Errorf("%w") wrapper is its own cause, even around Canceled)
+\* The plan's error kind ek \in ErrKinds decides which value the plan's failing component returns at
+\* position pos:
+ASSUME ErrKinds \subseteq {"plain", "wrapped", "deadline", "canceled", "runctx"}
+Cls(p, pos) == CASE PP(p).ek \in {"plain", "wrapped"} -> pos
+                 [] PP(p).ek = "deadline" -> "deadline"
+                 [] PP(p).ek \in {"canceled", "runctx"} -> "ctx"
+
+\* errutil.IsCtxError(ctx, err): err == nil, or ctx.Err() == Cause(err): identity with the error of THAT
+\* ctx, which is nil while it is open and context.Canceled once it is cancelled.  What counts as a component
+\* failure is therefore: every non-nil result that is not "ctx", and "ctx" when the checked context is still
+\* open at classification time.  A "ctx" result classified after the checked context is done is indistinguishable
+\* from the engine's own cancellation and is legitimately ignored.
+IsCtx(done, e) == \/ e = "nil"
+                  \/ e = "ctx" /\ done
+                  \/ ~FixIsCtx /\ done /\ e = "deadline"      \* negative control only
+NotCtxValue(c) == c \notin {"nil", "ctx"}
 
 (* ---- initial state ----------------------------------------------------- *)
 InitFor(pl) ==
@@ -204,8 +232,8 @@ PoolFailSync(p, c, callWaitDone) ==
 PoolWarm(p) ==
   /\ poolPc[p] = "init"
   /\ gunCalls' = [gunCalls EXCEPT ![p] = 1]
-  /\ IF PP(p).gunFail = 0 THEN PoolFailSync(p, "newgun", TRUE)
-     ELSE IF PP(p).warm = "fail" THEN PoolFailSync(p, "warmup", TRUE)
+  /\ IF PP(p).gunFail = 0 THEN PoolFailSync(p, Cls(p, "newgun"), TRUE)
+     ELSE IF PP(p).warm = "fail" THEN PoolFailSync(p, Cls(p, "warmup"), TRUE)
      ELSE /\ poolPc' = [poolPc EXCEPT ![p] = "async"]
           /\ UNCHANGED <<poolRet, wdCount, failed>>
   /\ UNCHANGED <<plan, engVars, ctxVars, provVars, aggVars, stVars, schedCalls, instVars, awVars>>
@@ -214,7 +242,7 @@ PoolWarm(p) ==
 PoolAsync(p) ==
   /\ poolPc[p] = "async"
   /\ IF PP(p).shared /\ PP(p).schedFail = 0
-     THEN /\ PoolFailSync(p, "sched", FixWaitDone)
+     THEN /\ PoolFailSync(p, Cls(p, "sched"), FixWaitDone)
           /\ schedCalls' = [schedCalls EXCEPT ![p] = 1]
           /\ UNCHANGED <<prov, agg, st, aw>>
      ELSE /\ poolPc' = [poolPc EXCEPT ![p] = "select"]
@@ -268,16 +296,16 @@ PoolStep(p) == PoolWarm(p) \/ PoolAsync(p) \/ PoolSelectCancel(p) \/ PoolSelectC
 \* which result the provider's Run may return now
 ProvMay(p, c) ==
   \/ c = "nil"  /\ PP(p).provider = "ok"   /\ ammoLeft[p] = 0
-  \/ c = "prov" /\ PP(p).provider = "fail" /\ ammoLeft[p] = 0    \* fails before the first ammo (ammo = 0) / mid-run
+  \/ c = Cls(p, "prov") /\ PP(p).provider = "fail" /\ ammoLeft[p] = 0    \* fails before the first ammo (ammo = 0) / mid-run
   \/ c = "ctx"  /\ PP(p).provider \in {"ok", "fail"} /\ RunDone(p)
-  \/ c = "prov" /\ PP(p).provider = "end"  /\ RunDone(p)         \* fails at the very end: error on cancel
+  \/ c = Cls(p, "prov") /\ PP(p).provider = "end"  /\ RunDone(p)         \* fails at the very end: error on cancel
 
 ProvEnd(p, c) ==
   /\ prov[p] = "run" /\ ProvMay(p, c)
   /\ prov' = [prov EXCEPT ![p] = "done"]
   /\ provCh' = [provCh EXCEPT ![p] = c]
   /\ qClosed' = [qClosed EXCEPT ![p] = TRUE]
-  /\ failed' = [failed EXCEPT ![p] = IF c = "prov" THEN @ \cup {"prov"} ELSE @]
+  /\ failed' = [failed EXCEPT ![p] = IF NotCtxValue(c) THEN @ \cup {c} ELSE @]
   /\ UNCHANGED <<plan, engVars, poolVars, ctxVars, ammoLeft, aggVars, stVars, facVars, instVars, awVars>>
 
 \* a provider that fails at the very end closes its queue when it runs dry but keeps running
@@ -286,21 +314,21 @@ ProvCloseQ(p) ==
   /\ qClosed' = [qClosed EXCEPT ![p] = TRUE]
   /\ UNCHANGED <<plan, engVars, poolVars, ctxVars, prov, provCh, ammoLeft, aggVars, stVars, facVars, instVars, awVars, failed>>
 
-ProvStep(p) == (\E c \in {"nil", "ctx", "prov"} : ProvEnd(p, c)) \/ ProvCloseQ(p)
+ProvStep(p) == (\E c \in {"nil", "ctx", "prov", "deadline"} : ProvEnd(p, c)) \/ ProvCloseQ(p)
 
 AggMay(p, c) ==
-  \/ c = "agg" /\ PP(p).aggregator = "now"                   \* fails at once
+  \/ c = Cls(p, "agg") /\ PP(p).aggregator = "now"                   \* fails at once
   \/ c = "nil" /\ PP(p).aggregator = "ok"   /\ RunDone(p)
-  \/ c = "agg" /\ PP(p).aggregator = "drop" /\ RunDone(p)    \* "N samples were dropped" when cancelled
+  \/ c = Cls(p, "agg") /\ PP(p).aggregator = "drop" /\ RunDone(p)    \* "N samples were dropped" / flush error when cancelled
 
 AggEnd(p, c) ==
   /\ agg[p] = "run" /\ AggMay(p, c)
   /\ agg' = [agg EXCEPT ![p] = "done"]
   /\ aggCh' = [aggCh EXCEPT ![p] = c]
-  /\ failed' = [failed EXCEPT ![p] = IF c = "agg" THEN @ \cup {"agg"} ELSE @]
+  /\ failed' = [failed EXCEPT ![p] = IF NotCtxValue(c) THEN @ \cup {c} ELSE @]
   /\ UNCHANGED <<plan, engVars, poolVars, ctxVars, provVars, stVars, facVars, instVars, awVars>>
 
-AggStep(p) == \E c \in {"nil", "agg"} : AggEnd(p, c)
+AggStep(p) == \E c \in {"nil", "ctx", "agg", "deadline"} : AggEnd(p, c)
 
 (* ======================================================================= *)
 (* startInstances and instance creation                                    *)
@@ -343,8 +371,8 @@ StartFirstCreate(p, o) ==
           /\ ipc' = [ipc EXCEPT ![p][0] = "check"]
           /\ gun' = [gun EXCEPT ![p][0] = "bound"]
           /\ UNCHANGED <<startCh, failed>>
-     ELSE /\ StartSend(p, 0, o)
-          /\ failed' = [failed EXCEPT ![p] = @ \cup {o}]
+     ELSE /\ StartSend(p, 0, Cls(p, o))
+          /\ failed' = [failed EXCEPT ![p] = IF NotCtxValue(Cls(p, o)) THEN @ \cup {Cls(p, o)} ELSE @]
           /\ UNCHANGED <<ipc, gun>>
   /\ UNCHANGED <<plan, engVars, poolVars, ctxVars, provVars, aggVars, itok, ishots, icls, closes, resBag, stok, awVars>>
 
@@ -376,8 +404,8 @@ InstCreate(p, i, o) ==
           /\ gun' = [gun EXCEPT ![p][i] = "bound"]
           /\ UNCHANGED <<resBag, failed>>
      ELSE /\ ipc' = [ipc EXCEPT ![p][i] = "done"]
-          /\ resBag' = [resBag EXCEPT ![p] = @ \cup {[id |-> i, c |-> o]}]
-          /\ failed' = [failed EXCEPT ![p] = @ \cup {o}]
+          /\ resBag' = [resBag EXCEPT ![p] = @ \cup {[id |-> i, c |-> Cls(p, o)]}]
+          /\ failed' = [failed EXCEPT ![p] = IF NotCtxValue(Cls(p, o)) THEN @ \cup {Cls(p, o)} ELSE @]
           /\ UNCHANGED gun
   /\ UNCHANGED <<plan, engVars, poolVars, ctxVars, provVars, aggVars, stVars, itok, ishots, icls, closes, stok, awVars>>
 
@@ -471,7 +499,8 @@ AwaitProvider(p) ==
                       ![p].pc = IF IsCtx(RunDone(p), provCh[p]) THEN "loop" ELSE "onerr",
                       ![p].pend = IF IsCtx(RunDone(p), provCh[p]) THEN "" ELSE provCh[p],
                       ![p].after = IF IsCtx(RunDone(p), provCh[p]) THEN "" ELSE "loop"]
-  /\ UNCHANGED <<plan, engVars, poolVars, ctxVars, provVars, aggVars, stVars, facVars, instVars, fwd, supp, failed>>
+  /\ failed' = [failed EXCEPT ![p] = IF IsCtx(RunDone(p), provCh[p]) THEN @ ELSE @ \cup {provCh[p]}]
+  /\ UNCHANGED <<plan, engVars, poolVars, ctxVars, provVars, aggVars, stVars, facVars, instVars, fwd, supp>>
 
 \* case err := <-ah.aggregatorErr
 AwaitAggregator(p) ==
@@ -480,7 +509,8 @@ AwaitAggregator(p) ==
                       ![p].pc = IF IsCtx(RunDone(p), aggCh[p]) THEN "loop" ELSE "onerr",
                       ![p].pend = IF IsCtx(RunDone(p), aggCh[p]) THEN "" ELSE aggCh[p],
                       ![p].after = IF IsCtx(RunDone(p), aggCh[p]) THEN "" ELSE "loop"]
-  /\ UNCHANGED <<plan, engVars, poolVars, ctxVars, provVars, aggVars, stVars, facVars, instVars, fwd, supp, failed>>
+  /\ failed' = [failed EXCEPT ![p] = IF IsCtx(RunDone(p), aggCh[p]) THEN @ ELSE @ \cup {aggCh[p]}]
+  /\ UNCHANGED <<plan, engVars, poolVars, ctxVars, provVars, aggVars, stVars, facVars, instVars, fwd, supp>>
 
 \* case res := <-ah.startRes
 AwaitStart(p) ==
@@ -489,7 +519,8 @@ AwaitStart(p) ==
                       ![p].pc = IF IsCtx(StartDone(p), startCh[p].c) THEN "check" ELSE "onerr",
                       ![p].pend = IF IsCtx(StartDone(p), startCh[p].c) THEN "" ELSE startCh[p].c,
                       ![p].after = IF IsCtx(StartDone(p), startCh[p].c) THEN "" ELSE "check"]
-  /\ UNCHANGED <<plan, engVars, poolVars, ctxVars, provVars, aggVars, stVars, facVars, instVars, fwd, supp, failed>>
+  /\ failed' = [failed EXCEPT ![p] = IF IsCtx(StartDone(p), startCh[p].c) THEN @ ELSE @ \cup {startCh[p].c}]
+  /\ UNCHANGED <<plan, engVars, poolVars, ctxVars, provVars, aggVars, stVars, facVars, instVars, fwd, supp>>
 
 \* case res := <-ah.runRes
 AwaitInstance(p, r) ==
@@ -501,7 +532,8 @@ AwaitInstance(p, r) ==
                               ![p].pc = IF IsCtx(RunDone(p), r.c) THEN "check" ELSE "onerr",
                               ![p].pend = IF IsCtx(RunDone(p), r.c) THEN "" ELSE r.c,
                               ![p].after = IF IsCtx(RunDone(p), r.c) THEN "" ELSE "check"]
-  /\ UNCHANGED <<plan, engVars, poolVars, ctxVars, provVars, aggVars, stVars, facVars, ipc, itok, ishots, icls, gun, closes, stok, fwd, supp, failed>>
+  /\ failed' = [failed EXCEPT ![p] = IF r.c = "ooa" \/ IsCtx(RunDone(p), r.c) THEN @ ELSE @ \cup {r.c}]
+  /\ UNCHANGED <<plan, engVars, poolVars, ctxVars, provVars, aggVars, stVars, facVars, ipc, itok, ishots, icls, gun, closes, stok, fwd, supp>>
 
 \* out of ammo before the start result: ah.instanceStartCancel()
 StartCancelDo(p) ==
